@@ -13,8 +13,9 @@ BUDGET = {
     "quick": {"runs": 4500, "time_cap": 150, "determinism_sample": 40, "shrink_runs": 300},
     "thorough": {"runs": 80000, "time_cap": 1500, "determinism_sample": 300, "shrink_runs": 600},
 }
-BOUNDS = "1-2 pcap sources per process, 0-50 records each (caplen 0..70000, biased to 0, 1, 60, 1514 and to record sizes that straddle 4096/8192-byte buffer boundaries), snaplen in {64,256,1514,65535,262144}, <=40 calls per handle, <=40 explicit chunk sizes"
-RULE = ("each run = 1-2 generated pcap files (both magics, varied global headers) presented as regular file, pipe-like path or "
+BOUNDS = "quick: 1-2 pcap sources per process and <=14(+3) calls per handle (thorough: 1-3 sources, <=30 calls), 0-50 records each (caplen 0..70000, biased to 0, 1, 60, 1514 and to record sizes that straddle 4096/8192-byte buffer boundaries), snaplen in {64,256,1514,65535,262144}, <=40 calls per handle, <=40 explicit chunk sizes"
+RULE = ("runs 0..S-1 are a systematic block: one small four-record file cut at every byte offset (0..total) x three call "
+        "patterns, source kind and chunk schedule rotating; later runs are seeded: each run = 1-2 generated pcap files (both magics, varied global headers) presented as regular file, pipe-like path or "
         "stdin, optionally truncated at a chosen byte offset or corrupted (bad magic, short global header, caplen > snaplen in "
         "record j), read by a random interleaving of pcap_read_next / pcap_read_all(f) / pcap_read_all(f, n) continuing past the "
         "end; optionally every packet is written with pcap_write (file mode w/x or pcap_stream(stdout)) and re-read by a second "
@@ -39,7 +40,7 @@ PROBES = [
 # ---------------------------------------------------------------------------
 # generation
 
-def _gen_episode(rng, allow_stdin):
+def _gen_episode(rng, allow_stdin, deep=False):
     hdr = pcapfmt.gen_header(rng)
     nrec = rng.weighted([(6, 0), (10, 1), (30, rng.range(2, 6)), (30, rng.range(6, 20)), (10, rng.range(20, 50))])
     allow_huge = hdr["snaplen"] >= 70000
@@ -77,7 +78,7 @@ def _gen_episode(rng, allow_stdin):
     # at most three calls past the end
     calls = []
     remaining = len(recs)
-    ncalls = rng.range(1, 14)
+    ncalls = rng.range(1, 30 if deep else 14)
     past = 0
     for j in range(ncalls):
         last = j >= ncalls - 2
@@ -101,10 +102,49 @@ def _gen_episode(rng, allow_stdin):
     return {"hdr": hdr, "recs": recs, "source": source, "damage": damage, "calls": calls}
 
 
+_SYS = None
+
+
+def systematic():
+    """A small well-formed file truncated at *every* byte offset, read with three call patterns,
+    the source kind rotating with the offset (the statement's 'truncated at every byte offset')."""
+    global _SYS
+    if _SYS is None:
+        hdr = pcapfmt.default_header(pcapfmt.MAGIC_NS)
+        hdr["snaplen"] = 20
+        recs = [
+            {"sec": 1, "usec": 999999999, "wirelen": 5, "data": {"t": "pattern", "n": 5, "mul": 1, "add": 65}},
+            {"sec": 0xFFFFFFFF, "usec": 0, "wirelen": 1514, "data": {"t": "pattern", "n": 20, "mul": 3, "add": 1}},
+            {"sec": 3, "usec": 4, "wirelen": 0, "data": {"t": "pattern", "n": 0}},
+            {"sec": 5, "usec": 6, "wirelen": 1, "data": {"t": "pattern", "n": 1, "mul": 1, "add": 10}},
+        ]
+        total = 24 + sum(16 + r["data"]["n"] for r in recs)
+        patterns = [
+            [["next"]] * 6,
+            [["all"], ["next"], ["all"]],
+            [["alln", 2], ["next"], ["alln", 5], ["next"]],
+        ]
+        cases = []
+        for at in range(total + 1):
+            for pi, calls in enumerate(patterns):
+                source = ["reg", "pipe", "stdin"][(at + pi) % 3]
+                ep = {"hdr": hdr, "recs": recs, "source": source, "damage": {"kind": "trunc", "at": at} if at < total else None, "calls": calls}
+                cases.append({"eps": [ep], "order": [0] * len(calls), "write": None,
+                              "chunks": [1, [1]] if (at + pi) % 2 == 0 else [1, [3, 16, 1, 24]], "rseed": 1})
+        _SYS = cases
+    return _SYS
+
+
 def generate(rng, tier, idx):
-    eps = [_gen_episode(rng, True)]
+    cases = systematic()
+    if idx < len(cases):
+        return cases[idx]
+    deep = tier == "thorough"
+    eps = [_gen_episode(rng, True, deep)]
     if rng.chance(35):
-        eps.append(_gen_episode(rng, eps[0]["source"] != "stdin"))
+        eps.append(_gen_episode(rng, eps[0]["source"] != "stdin", deep))
+        if deep and rng.chance(40):
+            eps.append(_gen_episode(rng, all(e["source"] != "stdin" for e in eps), deep))
     order = []
     for i, e in enumerate(eps):
         order += [i] * len(e["calls"])
